@@ -215,7 +215,8 @@ class Check:
             if depth:
                 cmd += ["-depth", str(depth)]
             cmd += ["-seed", str(self.seed)]
-        if coverage:
+        audit = bool(os.environ.get("VERIF_COVERAGE")) and not trace and not simulate
+        if coverage or audit:
             cmd += ["-coverage", "1"]
         cmd.append(module + ".tla")
         t0 = time.time()
@@ -234,6 +235,18 @@ class Check:
         m = re.search(r'"TRACE-REJECTED-AT-LINE", (\d+)', out)
         if m:
             res["rejected_at"] = int(m.group(1))
+        if audit:
+            # vacuity audit (bin/coverage): actions never taken and spec expressions never evaluated in this run
+            last = {}
+            for ln in out.splitlines():
+                m = re.match(r"<(\w+) line (\d+), col \d+ to line \d+, col \d+ of module (\w+)>: (\d+):(\d+)", ln)
+                if m:
+                    last[(m.group(3), m.group(1), int(m.group(2)))] = (int(m.group(4)), int(m.group(5)))
+            zero = sorted("%s!%s@%d" % k for k, v in last.items() if v[1] == 0)
+            nodistinct = sorted("%s!%s@%d" % k for k, v in last.items() if v[1] > 0 and v[0] == 0)
+            with open(os.environ["VERIF_COVERAGE"], "a") as fh:
+                fh.write(json.dumps({"check": self.pid, "tier": self.tier, "run": tag, "module": module, "actions": len(last),
+                                     "never_taken": zero, "no_new_state": nodistinct}) + "\n")
         if p.returncode == 124:
             res["error"] = "timeout after %ds" % timeout
         elif "Model checking completed. No error has been found." in out or (
